@@ -62,7 +62,20 @@ Definition esgz_chunk_matches (chunks : list chunk) (size off : Z) (o : obs) : b
 Definition db_chunk_matches (chunks : list chunk) (size off : Z) (o : obs) : bool :=
   chunk_obs (db_chunk_entry chunks off) (db_read_select size chunks off) o.
 
+Definition json_matches (d : jdec) (o : obs) (listing : list (name * nat)) : bool :=
+  match json_run d, o with
+  | Ok (n, l), OOk [n'] => Z.eqb (Z.of_nat n) n' && listing_eqb l listing
+  | Err, OErr => true
+  | Panic, OPanic => true
+  | OutOfFuel, OHang => true
+  | _, _ => false
+  end.
+(* streams without a model (GetPassthroughFd merge, Build/Unpack): the observation is the outcome class *)
+Definition oracle_only (o : obs) : bool := match o with OOk _ | OErr => true | _ => false end.
+
 Inductive case :=
+| CJson (d : jdec) (o : obs) (listing : list (name * nat))
+| COracle (o : obs)
 | CChunk (chunks : list chunk) (size off : Z) (o : obs)
 | CFooter (d : dec) (p : bytes) (gz : gzres) (o : obs)
 | COpen (size : Z) (ext : bool) (tocoff : Z) (tail51 : bytes) (g51 g47 g46 : gzres) (o : obs)
@@ -94,6 +107,8 @@ Definition case_ok (c : case) : bool :=
   | CTree es o l => tree_matches es o l
   | CRead cs off len fsize hits o => read_matches cs off len fsize hits o
   | CChunk cs size off o => esgz_chunk_matches cs size off o
+  | CJson d o l => json_matches d o l
+  | COracle o => oracle_only o
   end.
 
 Fixpoint mismatches_from (n : nat) (cs : list case) : list nat :=
